@@ -994,7 +994,21 @@ func persistentBuffer(v ssa.Value, depth int) string {
 		return "of unknown origin"
 	}
 	switch x := strip(v).(type) {
-	case *ssa.MakeSlice, *ssa.Call, *ssa.Alloc, *ssa.Const:
+	case *ssa.Call:
+		// a helper of this module hands out whatever its returns hand out
+		if h := x.Call.StaticCallee(); h != nil && isJivaFn(h) && len(h.Blocks) > 0 {
+			for _, r := range Returns(h) {
+				for _, res := range r.Results {
+					if _, isSlice := res.Type().Underlying().(*types.Slice); isSlice {
+						if w := persistentBuffer(res, depth+1); w != "" {
+							return w + " (through " + FnName(h) + ")"
+						}
+					}
+				}
+			}
+		}
+		return ""
+	case *ssa.MakeSlice, *ssa.Alloc, *ssa.Const:
 		return ""
 	case *ssa.Slice:
 		return persistentBuffer(x.X, depth+1)
